@@ -17,7 +17,7 @@ Definition t_crlf : text := [102;110;32;109;97;105;110;40;41;32;123;125;13;10].
 Example files_writes : e_ops (emit tmp_of bk_of Files bits0 1 t_orig t_fmt) = [Write 1 t_fmt].
 Proof. vm_compute. reflexivity. Qed.
 Example backup_writes :
-  e_ops (emit tmp_of bk_of FilesWithBackup bits0 1 t_orig t_fmt) = [Write 2 t_fmt; Rename 1 3; Rename 2 1].
+  e_ops (emit tmp_of bk_of FilesWithBackup bits0 1 t_orig t_fmt) = [Remove 2; Write 2 t_fmt; Rename 1 3; Rename 2 1].
 Proof. vm_compute. reflexivity. Qed.
 Example files_unchanged_no_ops : e_ops (emit tmp_of bk_of Files bitsl 1 t_fmt t_fmt) = [].
 Proof. vm_compute. reflexivity. Qed.
